@@ -566,3 +566,50 @@ package boltz
 //@   assume *fv(readIndex) != nil
 //@   ensures[directed] result != nil && (curLen[result] > 0 ==> curDesc[result] == !forward)
 
+
+// ---------------------------------------------------------------------------
+// Error classification helpers (C18, the sequential half): they write nothing that another goroutine can
+// reach - the errors.As target is a fresh local.
+// ---------------------------------------------------------------------------
+//@ func IsErrNotFoundErr
+//@   props C18
+//@   pure
+//@ func IsReferenceExistsError
+//@   props C18
+//@   pure
+//@ func IsUniqueIndexDuplicateError
+//@   props C18
+//@   pure
+
+// Symbol resolution (C18, the sequential half): GetSymbol writes nothing that existed before the call, and a set
+// symbol's runtime state (its cursor) is a per-call copy - the object kept in the store's symbol table is never handed out.
+//@ func (EntitySetSymbol).GetRuntimeSymbol
+//@   props C18
+//@   impl all
+//@   pure
+//@   ensures[a-fresh-copy] result != nil && fresh(result)
+//@ func (Store).GetSymbol
+//@   pure
+//@   ensures[runtime-symbols-are-per-call] istype(result, *entitySetSymbolRuntime) ==> fresh(result)
+//@ func (*BaseStore).GetSymbol
+//@   props C18
+//@   pure
+//@   ensures[runtime-symbols-are-per-call] istype(result, *entitySetSymbolRuntime) ==> fresh(result)
+//@ func (compositeEntitySymbol).getChain
+//@   pure
+//@ func (*BaseStore).createCompositeEntitySymbol
+//@   props C18
+//@   nosafety
+//@   pure
+//@   ensures[no-stored-runtime-symbol] istype(result, *entitySetSymbolRuntime) ==> fresh(result) || result == first || result == rest
+//@ func (*entityMapSymbol).createElementSymbol
+//@   props C18
+//@   nosafety
+//@   pure
+//@   ensures[not-a-runtime-symbol] !istype(result, *entitySetSymbolRuntime)
+//@ spec linkedTypeOf(sym Int) Int
+//@ func (linkedEntitySymbol).getLinkedType
+//@   pure
+//@   ensures ref(result) == linkedTypeOf(self) && (result == nil) == (linkedTypeOf(self) == 0)
+//@ func (storeInternal).newEntitySymbol
+//@   pure
